@@ -38,6 +38,8 @@ use serde_crate::de::DeserializeOwned;
 use serde_crate::{Deserialize, Serialize};
 
 mod argmin_param;
+#[cfg(linfa_verif)]
+pub mod verif_hooks_c19;
 mod float;
 mod hyperparams;
 #[cfg(linfa_verif)]
